@@ -34,6 +34,26 @@ func (e *Engine) heldLocks(st *State) []string {
 
 // blocked ends the path: the goroutine waits forever.
 func (e *Engine) blocked(st *State, what string, ins ssa.Instruction) int {
+	if p := st.par; p != nil {
+		other := 1 - p.cur
+		if !p.done[other] && !p.waiting[other] {
+			// this thread waits; the other one runs. The blocking instruction re-executes on resume.
+			p.waiting[p.cur] = true
+			p.stacks[p.cur] = st.frames
+			st.frames = p.stacks[other]
+			p.cur = other
+			p.mustStep[other] = true
+			st.path = append(st.path, "wait:"+what)
+			return stCont
+		}
+		if !p.done[other] && p.waiting[other] {
+			o := e.obl("deadlock@"+siteFn(ins), "hang")
+			o.Checked++
+			e.reportViolation(st, o, tTrue, e.modelOf(st), site(ins), "both goroutines wait for each other: "+what)
+			st.finished = true
+			return stDone
+		}
+	}
 	if held := e.heldLocks(st); len(held) > 0 {
 		o := e.obl("blocked-holding-lock@"+siteFn(ins), "lock")
 		o.Checked++
@@ -76,6 +96,7 @@ func (e *Engine) havocObserve(st *State, ch *ChanVal, ins ssa.Instruction) (clos
 }
 
 func (e *Engine) doRecv(st *State, f *Frame, x *ssa.UnOp, ch *ChanVal) int {
+	e.parYield(st, "recv")
 	elem := x.X.Type().Underlying().(*types.Chan).Elem()
 	set := func(v Value, ok bool) int {
 		if x.CommaOk {
@@ -137,6 +158,7 @@ func (e *Engine) doSend(st *State, f *Frame, x *ssa.Send) int {
 }
 
 func (e *Engine) doClose(st *State, f *Frame, ch *ChanVal, ins ssa.Instruction, ret func(Value) int) int {
+	e.parYield(st, "close")
 	if ch.obj == 0 {
 		o := e.obl("close-nil-chan@"+siteFn(ins), "panic")
 		o.Checked++
@@ -153,6 +175,7 @@ func (e *Engine) doClose(st *State, f *Frame, ch *ChanVal, ins ssa.Instruction, 
 	nc := *c
 	nc.closed = true
 	e.setChan(st, ch, &nc)
+	e.parProgress(st)
 	return ret(nil)
 }
 
@@ -275,6 +298,7 @@ type ParState struct {
 	cur      int
 	done     [2]bool
 	mustStep [2]bool
+	waiting  [2]bool // the thread is parked on a blocking operation and nothing changed since
 	main     []*Frame
 	call     ssa.Value
 }
@@ -311,6 +335,7 @@ func (e *Engine) parThreadDone(st *State) int {
 	p := st.par
 	p.done[p.cur] = true
 	other := 1 - p.cur
+	p.waiting[other] = false
 	if !p.done[other] {
 		p.stacks[p.cur] = nil
 		st.frames = p.stacks[other]
@@ -323,6 +348,14 @@ func (e *Engine) parThreadDone(st *State) int {
 	mf := st.top()
 	mf.ip++
 	return stCont
+}
+
+// parProgress: the running thread changed shared synchronisation state; a parked thread may be able
+// to continue.
+func (e *Engine) parProgress(st *State) {
+	if p := st.par; p != nil {
+		p.waiting[1-p.cur] = false
+	}
 }
 
 func (e *Engine) parYield(st *State, what string) (int, bool) {
